@@ -26,11 +26,14 @@ LOCAL OnBuildList(e, m) ==
               ELSE V(m, "C10", "a project is not selected at the highest version demanded by a reachable requirement", e.variant)
 
 LOCAL NamesOK(before, after) ==
-    \* a surviving requirement keeps its name; names denote one path
-    /\ \A n \in DOMAIN before \cap DOMAIN after : PathOf(after[n]) = PathOf(before[n])
-    /\ \A n \in DOMAIN before : (\E k \in DOMAIN after : PathOf(after[k]) = PathOf(before[n])) => n \in DOMAIN after
+    \* a requirement that survives (its project is still required) keeps its name; the name of
+    \* a requirement that was dropped may be taken by a new one
+    \A n \in DOMAIN before :
+        (\E k \in DOMAIN after : PathOf(after[k]) = PathOf(before[n])) => (n \in DOMAIN after /\ PathOf(after[n]) = PathOf(before[n]))
 
-LOCAL OnOp(e, m) ==
+\* one project required under two names: the edits are judged as a whole in that case
+LOCAL Aliased(reqs) == \E n1, n2 \in DOMAIN reqs : n1 # n2 /\ PathOf(reqs[n1]) = PathOf(reqs[n2])
+LOCAL OnOpPlain(e, m) ==
     IF e.err # "" THEN (IF e.expect_ok THEN V(m, "C11", "a requirement edit that should succeed failed", e.kind) ELSE m)
     ELSE LET u == m.u
              b0 == BL(u, e.before)
@@ -59,6 +62,12 @@ LOCAL OnOp(e, m) ==
                             ELSE VIf(m2, Get0(b1, e.path) > r.v, "C11", "after a downgrade the project is above the requested version", e.q.kind)
                      [] OTHER -> m2
          IN m3
+
+LOCAL OnOp(e, m) ==
+    IF ~Aliased(e.before) THEN OnOpPlain(e, m)
+    ELSE LET r == OnOpPlain(e, [m EXCEPT !.viol = {}]) IN
+         IF r.viol = {} THEN m
+         ELSE V(m, "C11", "a requirement edit mishandles a project that is required under two names", e.kind)
 
 Mon(e, m0) ==
     LET m1 == CASE e.ev = "BuildList" -> OnBuildList(e, m0) [] e.ev = "Op" -> OnOp(e, m0) [] OTHER -> m0
